@@ -88,10 +88,19 @@ fn gen_lib(r: &mut Rng) -> Vec<Package> {
     for n in PATHS {
         table.push((n.to_string(), with_id(n, inst_shape(r))));
     }
-    let mut pkgs = Vec::new();
+    let mut pkgs: Vec<Package> = Vec::new();
     let ncomp = 2 + r.below(3);
     let mut names: Vec<&str> = COMPONENT_NAMES.to_vec();
     r.shuffle(&mut names);
+    // names exported by two packages and imported by a third (or by one of the two)
+    let mut shared: Vec<(String, Kind)> = Vec::new();
+    if r.chance(1, 2) {
+        let mut pool: Vec<usize> = (0..table.len()).filter(|&j| table[j].0.matches('/').count() <= 1).collect();
+        r.shuffle(&mut pool);
+        let n = 1 + r.below(3);
+        shared = pool.iter().take(n).map(|&j| table[j].clone()).collect();
+    }
+    let shared_importer = if ncomp >= 3 { 2 + r.below(ncomp - 2) } else { 1 };
     for (i, name) in names.iter().take(ncomp).enumerate() {
         let nimp = [0, 1, 1, 2, 2, 3, 4][r.below(7)];
         let nexp = [0, 1, 1, 2, 2, 3][r.below(6)];
@@ -130,6 +139,34 @@ fn gen_lib(r: &mut Rng) -> Vec<Package> {
             exports.push((n, k));
         }
         let version = if r.chance(1, 4) { Some(["1.2.0", "0.3.1"][r.below(2)].to_string()) } else { None };
+        // overlapping export sets: the shared names are exported by the first two component
+        // packages and imported by one package (several spreads can then supply the same argument)
+        if i < 2 {
+            for (n, k) in &shared {
+                if !exports.iter().any(|(m, _)| m == n) {
+                    exports.push((n.clone(), k.clone()));
+                }
+            }
+        }
+        if i == shared_importer && !shared.is_empty() {
+            // ... and something only one of the two exports, so that a later spread still has
+            // something new to supply
+            for q in pkgs.iter().take(2) {
+                if r.chance(2, 3) {
+                    if let Some((n, k)) = q.exports.iter().find(|(n, k)| !shared.iter().any(|(m, _)| m == n) && table.iter().any(|(m, tk)| m == n && tk == k)) {
+                        if !imports.iter().any(|(m, _)| m == n) {
+                            imports.push((n.clone(), k.clone()));
+                        }
+                    }
+                }
+            }
+            for (n, k) in &shared {
+                if !imports.iter().any(|(m, _)| m == n) {
+                    let at = r.below(imports.len() + 1);
+                    imports.insert(at, (n.clone(), k.clone()));
+                }
+            }
+        }
         pkgs.push(Package { name: name.to_string(), version, imports, exports });
         // a second version of the same name with another world
         if i == 0 && r.chance(1, 4) {
@@ -206,6 +243,8 @@ struct Gen<'a> {
     stmts: Vec<Stmt>,
     import_names: Vec<String>,
     export_names: Vec<String>,
+    /// distribution counters (flushed by the caller)
+    count: Vec<&'static str>,
 }
 
 fn lookup<'k>(es: &'k [(String, Kind)], n: &str) -> Option<&'k Kind> {
@@ -379,8 +418,120 @@ impl<'a> Gen<'a> {
         let mut spreads: Vec<String> = Vec::new();
         let mut omitted = false;
         let import_names: Vec<&String> = p.imports.iter().map(|(n, _)| n).collect();
+        // several spreads in one `new`, preferably with overlapping export sets: the spreads apply
+        // in order to the arguments that are still unsatisfied
+        let mut covered: Vec<String> = Vec::new();
+        let supplies = |v: &Val, strict: bool| -> bool {
+            v.kind.exports().map_or(false, |es| p.imports.iter().any(|(n, k)| lookup(es, n).map_or(false, |ek| !strict || ek.sub(k))))
+        };
+        // (more often when the library has several packages whose instances could supply something)
+        let sources = self.lib.iter().filter(|q| supplies(&Val { kind: Kind::Inst(None, q.exports.clone()), ext: None }, true)).count();
+        let odds = match (depth, sources >= 2) {
+            (0, true) => 2,
+            (0, false) => 8,
+            (_, true) => 6,
+            _ => 16,
+        };
+        if !p.imports.is_empty() && self.r.chance(1, odds) {
+            let mut cands: Vec<String> = self.locals.iter().filter(|(_, v)| supplies(v, true)).map(|(l, _)| l.clone()).collect();
+            if cands.len() < 2 && depth == 0 {
+                // bind instances of packages exporting some of the wanted names first
+                let mut qs: Vec<Package> = self.lib.iter().filter(|q| supplies(&Val { kind: Kind::Inst(None, q.exports.clone()), ext: None }, true)).cloned().collect();
+                self.r.shuffle(&mut qs);
+                for q in qs.iter().take(2 + self.r.below(2)) {
+                    let e = self.gen_new(q, 1);
+                    let id = self.fresh_local(None);
+                    self.locals.push((id.clone(), Val { kind: Kind::Inst(None, q.exports.clone()), ext: None }));
+                    self.stmts.push(Stmt::Let(id.clone(), e));
+                    cands.push(id);
+                }
+            }
+            if self.r.chance(1, 8) {
+                // instances exporting a wanted name at another kind
+                let more: Vec<String> = self.locals.iter().filter(|(l, v)| supplies(v, false) && !cands.contains(l)).map(|(l, _)| l.clone()).collect();
+                cands.extend(more);
+            }
+            if !cands.is_empty() {
+                self.r.shuffle(&mut cands);
+                // mostly each further spread still has something new to supply (else the
+                // documented outcome is SpreadInstantiationNoMatch)
+                let n = 2 + self.r.below(2);
+                let mut bound: Vec<String> = Vec::new();
+                for c in cands.iter() {
+                    if spreads.len() >= n {
+                        break;
+                    }
+                    let names: Vec<String> = self
+                        .locals
+                        .iter()
+                        .find(|(l, _)| l == c)
+                        .and_then(|(_, v)| v.kind.exports())
+                        .map(|es| p.imports.iter().filter(|(n, _)| lookup(es, n).is_some()).map(|(n, _)| n.clone()).collect())
+                        .unwrap_or_default();
+                    if names.iter().any(|n| !bound.contains(n)) || self.r.chance(1, 25) {
+                        spreads.push(c.clone());
+                        bound.extend(names);
+                    }
+                }
+                if spreads.len() < 2 && depth == 0 {
+                    // bind one more instance that still has something new to supply (preferably
+                    // one that also exports what is already supplied)
+                    let mut qs: Vec<Package> = self
+                        .lib
+                        .iter()
+                        .filter(|q| p.imports.iter().any(|(n, k)| !bound.contains(n) && lookup(&q.exports, n).map_or(false, |ek| ek.sub(k))))
+                        .cloned()
+                        .collect();
+                    self.r.shuffle(&mut qs);
+                    qs.sort_by_key(|q| !q.exports.iter().any(|(n, _)| bound.contains(n)));
+                    if let Some(q) = qs.first() {
+                        let e = self.gen_new(q, 1);
+                        let id = self.fresh_local(None);
+                        self.locals.push((id.clone(), Val { kind: Kind::Inst(None, q.exports.clone()), ext: None }));
+                        self.stmts.push(Stmt::Let(id.clone(), e));
+                        bound.extend(p.imports.iter().filter(|(n, _)| lookup(&q.exports, n).is_some()).map(|(n, _)| n.clone()));
+                        let at = self.r.below(spreads.len() + 1);
+                        spreads.insert(at, id);
+                    }
+                }
+                // the same instance twice (the second one supplies nothing new), or fewer candidates than wanted
+                let real = spreads.len() >= 2;
+                if !spreads.is_empty() && (spreads.len() < 2 && self.r.chance(1, 10) || self.r.chance(1, 15)) {
+                    let c = spreads[self.r.below(spreads.len())].clone();
+                    spreads.push(c);
+                }
+                if spreads.len() < 2 && self.r.chance(2, 3) {
+                    // nothing to overlap with
+                    spreads.clear();
+                }
+                let mut per_name: Vec<usize> = Vec::new();
+                for (n, _) in &p.imports {
+                    let k = spreads.iter().filter(|s| self.locals.iter().any(|(l, v)| l == *s && v.kind.exports().map_or(false, |es| lookup(es, n).is_some()))).count();
+                    if k > 0 {
+                        covered.push(n.clone());
+                    }
+                    per_name.push(k);
+                }
+                if spreads.len() >= 2 {
+                    self.count.push("new:multi-spread");
+                    if std::env::var_os("WACV_DEBUG").is_some() {
+                        eprintln!("GEN real={real} multi-spread new {} spreads={:?} covered={:?} per_name={:?} imports={:?}", p.key(), spreads, covered, per_name, import_names);
+                    }
+                }
+                if real && per_name.iter().any(|&k| k >= 2) {
+                    self.count.push("new:multi-spread-each-supplies-overlap");
+                }
+                if per_name.iter().any(|&k| k >= 2) {
+                    self.count.push("new:multi-spread-overlap");
+                }
+            }
+        }
         for (n, k) in &p.imports {
             let seg = last_segment(n);
+            // left to the spreads (mostly)
+            if covered.contains(n) && self.r.chance(19, 20) {
+                continue;
+            }
             // an explicit import of this very name must be passed, else `...` would conflict with it
             if self.import_names.contains(n) && self.r.chance(9, 10) {
                 if let Some((l, _)) = self.locals.iter().find(|(l, v)| v.ext.as_ref() == Some(n) && v.kind.sub(k) && approx_infer(l, v, &p.imports) == *n) {
@@ -450,11 +601,14 @@ impl<'a> Gen<'a> {
                 spreads.push(insts[self.r.below(insts.len())].clone());
             }
         }
-        for s in spreads {
-            let at = self.r.below(args.len() + 1);
-            args.insert(at, Arg::Spread(s));
+        // the spreads keep their relative order (it matters: they apply in order)
+        let multi = spreads.len() >= 2;
+        let mut at: Vec<usize> = spreads.iter().map(|_| self.r.below(args.len() + 1)).collect();
+        at.sort();
+        for (i, s) in spreads.into_iter().enumerate() {
+            args.insert(at[i] + i, Arg::Spread(s));
         }
-        if self.r.chance(1, 3) {
+        if self.r.chance(1, if multi { 8 } else { 3 }) {
             self.r.shuffle(&mut args);
         }
         if (omitted && self.r.chance(29, 30)) || self.r.chance(1, 10) {
@@ -1118,8 +1272,15 @@ fn emit(out: &mut Out, lib: &Lib, prog: &Program, define: bool, string_as: bool,
     match obs {
         Obs::Line(line) => {
             let head = line.split(' ').take(2).collect::<Vec<_>>().join(" ");
-            out.count(&format!("obs:{}", if line.starts_with("ok") { "ok".to_string() } else { head }));
+            out.count(&format!("obs:{}", if line.starts_with("ok") { "ok".to_string() } else { head.clone() }));
             out.count(&format!("variant:{tag}"));
+            let mut q = prog.clone();
+            if tag == "generated" && count_exprs(&mut q, &|e| matches!(e, Expr::New(_, _, args) if args.iter().filter(|a| matches!(a, Arg::Spread(_))).count() >= 2)) > 0 {
+                out.count(&format!("multi-spread:{}", if line.starts_with("ok") { "ok".to_string() } else { head.clone() }));
+                if std::env::var_os("WACV_DEBUG").is_some() {
+                    eprintln!("MULTI-SPREAD {line}\n{text}");
+                }
+            }
             fields.push(esc(&line));
             out.case(nontrivial(prog), "prog", &fields);
         }
@@ -1244,8 +1405,11 @@ fn main() {
         };
         // several programs per library
         for _ in 0..(3 + r.below(4)) {
-            let mut g = Gen { r: &mut r, lib: &lib.pkgs, locals: Vec::new(), stmts: Vec::new(), import_names: Vec::new(), export_names: Vec::new() };
+            let mut g = Gen { r: &mut r, lib: &lib.pkgs, locals: Vec::new(), stmts: Vec::new(), import_names: Vec::new(), export_names: Vec::new(), count: Vec::new() };
             g.gen_program();
+            for c in std::mem::take(&mut g.count) {
+                out.count(c);
+            }
             let prog = Program { self_name: SELF.to_string(), stmts: g.stmts };
             let define = r.chance(2, 3);
             let string_as = r.chance(1, 3);
